@@ -35,6 +35,15 @@ type GenConfig struct {
 
 func (g GenConfig) weight(k string) int { return g.Weights[k] }
 
+// pick draws an (approximately) uniform index in [0,n). rapid's integer
+// generators favour small values; combining two draws flattens that for
+// categorical choices whose distribution matters.
+func pick(t *rapid.T, label string, n int) int {
+	hi := rapid.IntRange(0, 63).Draw(t, label+"Hi")
+	lo := rapid.IntRange(0, 63).Draw(t, label+"Lo")
+	return (hi*64 + lo*37) % n
+}
+
 var contentTypes = []string{"text/plain", "application/octet-stream", "image/png; charset=binary", "x/y"}
 
 func optString(t *rapid.T, label string, vals []string) *string {
@@ -100,7 +109,7 @@ func (g GenConfig) ver(t *rapid.T, label string) string {
 	if !g.Versions {
 		return ""
 	}
-	switch rapid.IntRange(0, 6).Draw(t, label+"Kind") {
+	switch pick(t, label+"Kind", 7) {
 	case 0, 1, 2:
 		return ""
 	case 3:
@@ -116,7 +125,7 @@ func (g GenConfig) cond(t *rapid.T, o *Op) {
 	if !g.Conditions {
 		return
 	}
-	switch rapid.IntRange(0, 9).Draw(t, "cond") {
+	switch pick(t, "cond", 10) {
 	case 0:
 		o.IfNoneMatchStar = true
 	case 1:
@@ -143,7 +152,7 @@ func (g GenConfig) supplied(t *rapid.T) string {
 	if !g.Supplied {
 		return ""
 	}
-	switch rapid.IntRange(0, 7).Draw(t, "supplied") {
+	switch pick(t, "supplied", 8) {
 	case 0:
 		return "ok:" + rapid.SampledFrom([]string{"md5", "crc32", "crc32c", "crc64nvme", "sha1", "sha256", "all"}).Draw(t, "algo")
 	case 1:
@@ -155,7 +164,7 @@ func (g GenConfig) supplied(t *rapid.T) string {
 }
 
 func (g GenConfig) rng(t *rapid.T) *[2]int64 {
-	switch rapid.IntRange(0, 3).Draw(t, "rangeKind") {
+	switch pick(t, "rangeKind", 4) {
 	case 0:
 		return nil
 	case 1: // suffix
@@ -194,6 +203,9 @@ func (g GenConfig) GenOp(t *rapid.T, kind string) Op {
 	case OpCopy:
 		o.SB = rapid.IntRange(0, g.Buckets-1).Draw(t, "sb")
 		o.SK = rapid.IntRange(0, g.Keys-1).Draw(t, "sk")
+		if g.HotKey && pick(t, "hotSrc", 3) > 0 {
+			o.SB, o.SK = 0, 0
+		}
 		o.SrcVer = g.ver(t, "sver")
 		if rapid.IntRange(0, 2).Draw(t, "ranged") == 0 {
 			o.Range = g.rng(t)
@@ -237,6 +249,9 @@ func (g GenConfig) GenOp(t *rapid.T, kind string) Op {
 		o.PartNo = rapid.SampledFrom([]int{1, 2, 2, 3}).Draw(t, "pn")
 		o.SB = rapid.IntRange(0, g.Buckets-1).Draw(t, "sb")
 		o.SK = rapid.IntRange(0, g.Keys-1).Draw(t, "sk")
+		if g.HotKey && pick(t, "hotSrc", 3) > 0 {
+			o.SB, o.SK = 0, 0
+		}
 		o.SrcVer = g.ver(t, "sver")
 		o.Range = g.rng(t)
 		if g.SrcConds {
@@ -245,9 +260,10 @@ func (g GenConfig) GenOp(t *rapid.T, kind string) Op {
 	case OpMpuComplete:
 		o.Upload = rapid.IntRange(-1, 3).Draw(t, "up")
 		if g.Manifests {
-			o.Manifest = rapid.SampledFrom([]string{"", "", "ok", "ok", "wrongEtag", "wrongOrder", "missing", "extra"}).Draw(t, "manifest")
+			o.Manifest = []string{"", "", "", "ok", "ok", "ok", "ok", "wrongEtag", "wrongOrder", "missing", "extra", ""}[pick(t, "manifest", 12)]
 		}
 		g.cond(t, &o)
+		o.Supplied = g.supplied(t)
 	case OpMpuAbort:
 		o.Upload = rapid.IntRange(-1, 3).Draw(t, "up")
 	case OpDelete:
@@ -380,6 +396,16 @@ func (g GenConfig) Gen(t *rapid.T) []Op {
 			if rapid.IntRange(0, 5).Draw(t, "seqComplete") > 0 {
 				c := g.GenOp(t, OpMpuComplete)
 				c.Upload = LastUpload
+				if pick(t, "seqClean", 4) > 0 {
+					// most sequences complete cleanly
+					if c.Manifest != "" {
+						c.Manifest = "ok"
+					}
+					if SuppliedIsBad(c.Supplied) {
+						c.Supplied = ""
+					}
+					c.IfMatch, c.IfNoneMatchStar = "", false
+				}
 				ops = append(ops, c)
 			}
 			i += np + 1
